@@ -12,12 +12,12 @@ VN = "real dbft instances in a deterministic virtual-time cluster (harness/vnet)
 checks = {
  'C01': dict(engine='vnet', technique='runtime monitoring: offline agreement checker over ProcessBlock events of honest nodes in hostile virtual-time cluster runs (Byzantine/equivocating/replaying adversaries, loss, duplication, early timeouts)',
    text=VN+'oracle compares the blocks accepted by all honest never-restarted nodes per height; forks are attributed through re-validated acceptance certificates. Held on the runs executed, nothing more; the known fork (early unverified commits) is reported as KNOWN-FINDING.',
-   note='assumes an authenticated transport (adversaries cannot forge honest payloads/signatures; harness MAC signatures), <=F faulty validators, harness payload/block implementations; explores N<=10 (16 in a share of the thorough runs), 2-4 (up to 8) heights; faults: Byzantine validators, hostile scheduling, amnesia restarts of up to F validators', ref='4.1, 5.1'),
+   note='assumes an authenticated transport (adversaries cannot forge honest payloads/signatures; harness MAC signatures), <=F faulty validators, harness payload/block implementations; explores N<=10 (13 and 16 in a share of the thorough runs), 2-4 (up to 8) heights; faults: Byzantine validators, hostile scheduling, amnesia restarts of up to F validators', ref='4.1, 5.1'),
  'C02': dict(engine='vnet', technique='runtime monitoring: online certificate re-validation inside every ProcessBlock/ProcessPreBlock callback (M verifying current-view (pre)commits, tip extension, block == proposal)',
    text=VN+'at every acceptance the monitor re-verifies every counted commit/pre-commit signature against exactly the handed-over block, checks index/prev hash against the ledger and rebuilds the block from the stored proposal.',
-   note='same assumptions as C01; known finding early-unverified-(pre)commit is listed in KNOWN_FINDINGS.txt', ref='4.2, 5.1'),
+   note='same assumptions as C01; known finding early-unverified-commit (commits that reach a backup before the proposal, anti-MEV off) is listed in KNOWN_FINDINGS.txt; four related defects were repaired', ref='4.2, 5.1, 5.14, 5.16, 5.1b'),
  'C03': dict(engine='vnet', technique='runtime monitoring: offline checker over each honest node\'s Broadcast history (equivocation, commit lock, recovery-message retransmissions, view monotonicity)',
-   text=VN+'oracle over the complete outgoing message history and view entries of every honest node.', note='every incarnation of a restarted node is judged on its own (what it said before the restart is forgotten, what comes back to it from the peers counts as said); authenticated transport', ref='4.3'),
+   text=VN+'oracle over the complete outgoing message history and view entries of every honest node.', note='every incarnation of a restarted node is judged on its own (what it said before the restart is forgotten, what comes back to it from the peers counts as said); authenticated transport; byz-flips profile (watch-only flag flipping); known finding: the commit lock is not held while the watch-only flag is set', ref='4.3, 5.19'),
  'C04': dict(engine='vnet', technique='runtime monitoring: online precondition evaluation at every PrepareResponse/Commit/PreCommit send and every view entry against the node\'s exported tables',
    text=VN+'preconditions (designated primary, all transactions held, verification accepted that block, M preparations naming the proposal, M change views) are evaluated on the live Context at the instant of the send / view entry.', note='authenticated transport; <=F faulty', ref='4.4'),
  'C07': dict(engine='vnet', technique='runtime monitoring: online phase-order automaton per node and height (pre-commit -> pre-block -> commit -> block) over callback events',
@@ -25,25 +25,25 @@ checks = {
  'C08': dict(engine='vnet', technique='runtime monitoring: offline checker over fault-free synchronous virtual-time runs with randomly permuted/duplicated deliveries (all decide every height in view 0, no ChangeView/RecoveryRequest)',
    text=VN+'all validators honest, every due message delivered before a timer may expire, random order and duplicates inside each round, early traffic via slow block persistence; bounded restatement, see DESIGN.', note='premise limits: latency <= T/50, Reset delay inside the timer slack; genesis-height zero timers excluded for runs with latency (DESIGN 5.10)', ref='4.8'),
  'C10': dict(engine='vnet', technique='runtime monitoring: online timer-armed assertion after every API return on the injected virtual timer',
-   text=VN+'after each Start/Reset/OnReceive/OnTimeout/OnTransaction/OnNewTransaction return the injected timer of an undecided validator must be pending for exactly (BlockIndex, ViewNumber) with a non-negative duration; matching timeouts must re-arm.', note='views whose shift overflows (>~28) are not reached', ref='4.10'),
+   text=VN+'after each Start/Reset/OnReceive/OnTimeout/OnTransaction/OnNewTransaction return the injected timer of an undecided validator must be pending for exactly (BlockIndex, ViewNumber) with a non-negative duration; matching timeouts must re-arm.', note='views whose shift overflows (>~28) are not reached; hostile profiles plus the watch profile; known finding: no timer after the watch-only flag is switched off in the middle of an epoch', ref='4.10, 5.19'),
  'C14': dict(engine='vnet', technique='runtime monitoring: twin-run trace comparison of one deterministic schedule under shifted virtual epochs and repeated wall-clock instants',
-   text='the same scripted FIFO schedule is executed with epoch E, E+delta and E again; timer arguments and payload streams (timestamps minus epoch) must be identical.', note='nonces/hashes/signatures excluded (crypto/rand nonce); runs that used the map-ordered cache replay are skipped', ref='4.14, 5.4'),
+   text='the same scripted FIFO schedule is executed with epoch E, E+delta (a multiple of the drawn timestamp increment) and E again: timer arguments and payload streams (timestamps minus epoch) must be identical; a fourth execution under an offset off the increment grid must agree in everything but timestamps; fresh chains, a fixed ledger timestamp and scripted view-jump twins are part of the case list.', note='nonces/hashes/signatures excluded (crypto/rand nonce); runs that used the map-ordered cache replay are skipped', ref='4.14, 5.4'),
  'C16': dict(engine='vnet', technique='runtime monitoring: offline timing checker over virtual-time-stamped proposals in fault-free synchronous runs with MaxTimePerBlock',
    text=VN+'proposal gaps >= min, empty proposals >= max after the previous one, notified primary proposes inside the OnNewTransaction call, no idle view change, subscription only with the extension.', note='tolerance 2 x one-way latency; a timeout while the proposal is in flight to that node is outside the premise', ref='4.16'),
  'C05': dict(engine='vnet', technique='runtime monitoring: online quiescence monitor between ProcessBlock and Reset plus state audits inside and after every Reset/Start (tables, validator list, own index, cache through the verif hook)',
-   text=VN+'multi-height runs with validator sets changing size/membership/own index, height skips by multi-block ledger sync, leftover and early traffic; at-most-once decision, whole-state fingerprint unchanged while decided, fresh state right after Context.reset, nothing of lower heights in tables or cache at return.', note='needs the verif hooks VerifCache/VerifFlags; authenticated transport', ref='4.5, 5.6'),
+   text=VN+'multi-height runs (also chains of 120-320 heights on one instance) with validator sets changing size/membership/own index, block times changing per height, height skips by multi-block ledger sync, leftover and early traffic; at-most-once decision, whole-state fingerprint unchanged while decided, fresh state right after Context.reset, nothing of lower heights in tables or cache at return; every cacheable future payload is kept, also while decided; scripted late events after a decision the node did not vote for.', note='needs the verif hooks VerifCache/VerifFlags; authenticated transport', ref='4.5, 5.6'),
  'C06': dict(engine='c06', technique='runtime monitoring with an exhaustive workload: N/F/M/GetPrimaryIndex of the real Context evaluated for every N in 1..65535 x every view 0..255 x listed heights against integer arithmetic',
-   text='exhaustive enumeration of N x view at the listed heights (incl. 32-bit boundaries); per-N height windows for N<=512; 1% sample and N<=64 re-initialised through real Reset.', note='BlockIndex is moved directly between heights for most N', ref='4.6'),
- 'C09': dict(engine='vnet', technique='runtime monitoring: bounded-progress checker in virtual time over runs with silent validators, healed partitions and amnesia restarts',
-   text=VN+'liveness restated as bounded progress: after the last fault event every live validator gains each height within 16*2^(v0+s)*T of virtual time (T = block time, or the maximum block time where dynamic block time is configured); views <= s for silent-from-start runs; agreement checked on the same runs.', note='bounded restatement of an unbounded eventually; synchronous delivery after GST; known liveness lock (amnesiac primary) listed in KNOWN_FINDINGS.txt', ref='4.9, 5.12'),
+   text='exhaustive enumeration of N x view at the listed heights (incl. 32-bit boundaries); per-N height windows for N<=512; 1% sample and N<=64 re-initialised through real Reset; one long-lived instance per worker is driven through random validator-count changes; a library panic for any N is a violation.', note='BlockIndex is moved directly between heights for most N', ref='4.6'),
+ 'C09': dict(engine='vnet', technique='runtime monitoring: bounded-progress checker in virtual time over runs with silent validators, healed partitions, amnesia restarts and arbitrary loss-free asynchronous prefixes (then GST)',
+   text=VN+'liveness restated as bounded progress: after the last fault event every live validator gains each height within 16*2^(v0+s)*T of virtual time (T = block time, or the maximum block time where dynamic block time is configured; v0 counts requested views; +F in the exponent after an asynchronous prefix); views <= s for silent-from-start runs (one recorded exception); agreement checked on the same runs.', note='bounded restatement of an unbounded eventually; synchronous delivery after GST; three recorded findings (KNOWN_FINDINGS.txt): amnesiac primary proposing twice, the dBFT 2.0 commit-split liveness lock, a primary waiting a backup timeout after learning of its view from a recovery message', ref='4.9, 5.12, 5.20, 5.21'),
  'C11': dict(engine='vnet', technique='runtime monitoring: whole-state fingerprint comparison around injected inadmissible/duplicate inputs in reachable states, plus an API-sequence fuzzer in child processes as panic trap',
    text=VN+'probes of every inadmissible class are injected into states reached by real runs and judged by fingerprint/timer/broadcast comparison; 40k (quick) generated API sequences with arbitrary payloads and callback results run in child processes that record the case before executing it.', note='fingerprint covers unexported state through the verif hooks; one recorded finding (latent change-view quorum)', ref='4.11, 5.11'),
  'C12': dict(engine='vnet', technique='runtime monitoring: online obligation tracker RequestTx -> OnTransaction -> PrepareResponse/ChangeView',
-   text=VN+'obligations start at RequestTx and must be discharged no later than the OnTransaction call that supplies the last requested transaction, including view changes inside that call (directed scenario + seeded variations).', note='premise evaluated at call start (backup, proposal stored, not view-changing, not answered)', ref='4.12, 5.5'),
+   text=VN+'obligations start at RequestTx and must be discharged no later than the OnTransaction call that supplies the last requested transaction, including view changes inside that call (directed scenario + seeded variations).', note='premise evaluated at call start (backup, proposal stored, not view-changing, not answered)', ref='4.12, 5.5, 5.15'),
  'C13': dict(engine='vnet', technique='runtime monitoring: online silence monitor on watch-only nodes (Broadcast/Sign/SetData) plus twin-run comparison watch-only vs silent validator',
    text=VN+'watch-only validator at every list position and observers outside the list, heights chosen so that it is primary at Start/Reset/after view changes; the other validators must behave identically next to a silent validator (FIFO twin runs).', note='twin comparison skips runs that used the map-ordered cache replay', ref='4.13, 5.2'),
  'C15': dict(engine='vnet', technique='runtime monitoring: online proposal well-formedness oracle at NewPrepareRequest/Broadcast/API return/NewBlockFromContext on real primaries',
-   text='generated previous timestamps, clock readings (behind/equal/ahead, unaligned, stepping), increments, pools 0..64, heights up to 2^32, views > 0.', note='gap prevTs < trunc(now) < prevTs+inc only checked for strict increase', ref='4.15'),
+   text='generated previous timestamps (zero, aligned, unaligned, near or hours ahead of the clock, upper half of uint64), clock readings (behind/equal/ahead, unaligned, stepping), increments, pools 0..64 and one of 66 000, heights up to 2^32, views > 0; the block the primary hands over is compared with its proposal.', note='gap prevTs < trunc(now) < prevTs+inc only checked for strict increase', ref='4.15'),
  'C17': dict(engine='c17', technique='runtime monitoring: offline log monitor (agreement, contiguity, chain links, progress, interval) over the real simulation binary, also built with the race detector',
    text='the built internal/simulation program runs in private network namespaces for 23 s (quick) with several flag sets; approvals are parsed from its log.', note='real time: only one-sided loose bounds, load guard makes lateness findings inconclusive', ref='4.17, 5.3'),
  'C18': dict(engine='c18', technique='runtime monitoring: online shadow oracle (never-early lower bound, latest epoch, zero-duration, owed expiry) over generated Reset/Extend/wait/read sequences on the real timer.Timer against the monotonic clock',
@@ -52,7 +52,7 @@ checks = {
    text='seeded generators and boundary lists drive the real internal/consensus, internal/crypto, internal/merkle code; byte fuzzing in a memory-limited child process.', note='reference wire-format omissions are reported as observations (observationsNotAsserted), see DESIGN 4.19', ref='4.19'),
 
  'C20': dict(engine='c20', technique="runtime monitoring of the specifications themselves: TLC simulation mode generates random behaviours from Init/Next of each shipped .tla and evaluates the named invariants on every generated state; coverage probes (negated reachability predicates that must be refuted) show what the behaviours reached",
-   text='the five .tla files are read from the working tree, run with generated cfgs (shipped constants, MaxView 1..2, every fault set the ASSUME permits) under tlc -simulate; held on K behaviours / S states, not exhaustive by design.', note='exploration only: exhaustive BFS, Apalache and TLAPS are deliberately not the deciding step (technique family); TLC itself is trusted', ref='4.20, 5.8'),
+   text='the five .tla files are read from the working tree, run with generated cfgs (shipped constants, MaxView 1..2, every fault set the ASSUME permits) under tlc -simulate; held on K behaviours / S states, not exhaustive by design.', note='exploration only: exhaustive BFS, Apalache and TLAPS are deliberately not the deciding step (technique family); TLC itself is trusted; known finding: dbftCV3 with a faulty node (directed replay through the shipped Next); focused simulations for late views', ref='4.20, 5.8, 5.13'),
 }
 tiers_thorough_env = {'C18': 'VERIF_RACE=1 ', 'C08': 'VERIF_RACE=1 '}
 out = {"version": 1, "setup_cmd": "bin/setup",
